@@ -110,7 +110,7 @@ func c01Exec(c progCase, kinds []string, res *core.Result) (skip string, fail *e
 		if c.FactsAsClauses {
 			pre = nil
 		}
-		if kind == "merged-file-snapshot" {
+		if kind == "merged-file-snapshot" || kind == "teeing-snapshot" {
 			// a saved, partial result of an earlier evaluation: every other fact of the model is already in the file
 			for i, f := range rr.Model.All() {
 				if i%2 == 0 {
